@@ -261,8 +261,8 @@ inline void run_one(const HarnessDef& h, const Workload& w, uint64_t seed,
     WorkerState& s = ws();
     s.w = &w;
     Result r;
-    if (h.watchdog_s) alarm(h.watchdog_s);
     s.in_run = true;
+    rt_set_in_run(true);
     if (h.concurrent) {
         SimCfg c; vec_to_simcfg(w.simv, c);
         rt_run_begin(c, seed, replay ? replay->data() : nullptr, replay ? replay->size() : 0);
@@ -278,7 +278,17 @@ inline void run_one(const HarnessDef& h, const Workload& w, uint64_t seed,
         Stats st;
         if (!rt_run_end(&st)) r.fail("threads_alive", "simulated threads still alive at end of run");
     }
-    alarm(0);
+    rt_set_in_run(false);
+    if (rt_report_count() > 0) {
+        // a sanitizer printed a report during this run and did not halt (TSan)
+        emit_record(false, "sanitizer", "", &r.probes, true);
+        _exit(77);
+    }
+    if (!r.ok && r.cls == "threads_alive") {
+        // parked real threads of this run cannot be unwound: do not reuse the process
+        emit_record(false, r.cls, r.detail, &r.probes, true);
+        _exit(3);
+    }
     emit_record(r.ok, r.cls, r.detail, &r.probes, false);
     s.in_run = false;
     s.w = nullptr;
@@ -326,6 +336,7 @@ inline int worker_main(int argc, char** argv, const HarnessDef& h) {
     int tier = 0;
     const char* replay_path = nullptr;
     int cpu = -1;
+    bool dry = false;
     if (const char* e = getenv("VERIF_SEED")) base_seed = strtoull(e, nullptr, 10);
     for (int i = 1; i < argc; ++i) {
         std::string a = argv[i];
@@ -335,6 +346,7 @@ inline int worker_main(int argc, char** argv, const HarnessDef& h) {
         } else if (a == "--seed" && i + 1 < argc) base_seed = strtoull(argv[++i], nullptr, 10);
         else if (a == "--tier" && i + 1 < argc) tier = !strcmp(argv[++i], "thorough") ? 1 : 0;
         else if (a == "--full") ws().full = true;
+        else if (a == "--dry") dry = true;
         else if (a == "--full-first" && i + 1 < argc) full_first = strtoull(argv[++i], nullptr, 10);
         else if (a == "--replay" && i + 1 < argc) replay_path = argv[++i];
         else if (a == "--cpu" && i + 1 < argc) cpu = atoi(argv[++i]);
@@ -347,15 +359,20 @@ inline int worker_main(int argc, char** argv, const HarnessDef& h) {
     }
     ws().h = &h;
     rt_set_fatal(fatal_cb);
+#if !defined(__SANITIZE_THREAD__)
+    // (under TSan the death callback would run with runtime locks held; TSan
+    // reports are noted through __tsan_on_report and handled at run end)
     if (__sanitizer_set_death_callback) __sanitizer_set_death_callback(death_cb);
+#endif
+    rt_start_watchdog(h.watchdog_s);
     struct sigaction sa; memset(&sa, 0, sizeof sa);
     sa.sa_handler = signal_cb;
     sigaction(SIGABRT, &sa, nullptr);
-    sigaction(SIGALRM, &sa, nullptr);
-    if (!__sanitizer_set_death_callback) {
-        sigaction(SIGSEGV, &sa, nullptr); sigaction(SIGBUS, &sa, nullptr);
-        sigaction(SIGFPE, &sa, nullptr); sigaction(SIGILL, &sa, nullptr);
-    }
+#if !defined(__SANITIZE_ADDRESS__)
+    // (ASan reports SEGV itself and then runs the death callback)
+    sigaction(SIGSEGV, &sa, nullptr); sigaction(SIGBUS, &sa, nullptr);
+    sigaction(SIGFPE, &sa, nullptr); sigaction(SIGILL, &sa, nullptr);
+#endif
     std::set_terminate(terminate_cb);
 
     if (replay_path) {
@@ -383,6 +400,13 @@ inline int worker_main(int argc, char** argv, const HarnessDef& h) {
             simcfg_to_vec(c, w.simv);
         }
         h.generate(plan, w, tier);
+        if (dry) {
+            // print the generated plan without executing it
+            ws().w = &w; ws().full = true;
+            emit_record(true, "dry", "", nullptr, true);
+            ws().w = nullptr;
+            continue;
+        }
         run_one(h, w, seed, nullptr);
     }
     return 0;
